@@ -80,8 +80,21 @@ def _addmatch_rows(repo, cname):
 
 
 def _tallies(r):
+    """(error tallies, adjacent-base tallies) of one path; on the path where the adjacent base is not a
+    known key (KeyError) the tally under '' stands for it and is normalised to the same shape"""
     errs = [(e[1], e[2]) for e in r.effects if e[0] == "aug" and ".errors[" in e[1]]
     adj = [(e[1], e[2]) for e in r.effects if e[0] == "aug" and ".adjacent_bases[" in e[1]]
+    unknown = [k for k, v in r.valuation.items() if k.startswith("haskey:") and ".adjacent_bases[" in k and v is False]
+    if unknown:
+        holder = unknown[0][len("haskey:"):]
+        base = holder[:holder.index(".adjacent_bases[")]
+        norm = []
+        for t, v in adj:
+            if t == f"{base}.adjacent_bases['']":
+                norm.append((holder, v))
+            else:
+                norm.append((t + " (although the key is unknown)", v))
+        adj = norm
     return errs, adj
 
 
